@@ -194,6 +194,7 @@ func (c *conn) handleSubscribe(in *inEnvelope) error {
 
 		if err != nil {
 			if ErrorCause(err) == context.Canceled {
+				vh("sub.failed", id, "ctx")
 				go c.closeSubscription(id)
 				return nil, err
 			}
@@ -211,6 +212,7 @@ func (c *conn) handleSubscribe(in *inEnvelope) error {
 					c.logger.Error(ctx, err, extraTags)
 				}
 
+				vh("sub.failed", id, "retry")
 				return nil, reactive.RetrySentinelError
 			}
 
@@ -220,6 +222,7 @@ func (c *conn) handleSubscribe(in *inEnvelope) error {
 				Message:  SanitizeError(err),
 				Metadata: output.Metadata,
 			})
+			vh("sub.failed", id, "initial")
 			go c.closeSubscription(id)
 
 			if _, ok := err.(SanitizedError); !ok {
@@ -249,6 +252,7 @@ func (c *conn) handleSubscribe(in *inEnvelope) error {
 		}
 
 		initial = false
+		vh("sub.done", id)
 		return nil, nil
 	}, c.minRerunIntervalFunc(c.ctx, query), c.alwaysSpawnGoroutineFunc(c.ctx, query))
 
@@ -327,6 +331,7 @@ func (c *conn) handleMutate(in *inEnvelope) error {
 				Metadata: output.Metadata,
 			})
 
+			vh("mut.done", id, false)
 			go c.closeSubscription(id)
 
 			if ErrorCause(err) == context.Canceled {
@@ -349,9 +354,11 @@ func (c *conn) handleMutate(in *inEnvelope) error {
 		go c.rerunSubscriptionsImmediately()
 
 		initial = false
+		vh("mut.done", id, true)
 		go c.closeSubscription(id)
 		return nil, errors.New("stop")
 	}, c.minRerunIntervalFunc(c.ctx, query), c.alwaysSpawnGoroutineFunc(c.ctx, query))
+	vh("mutate.accepted", id)
 
 	return nil
 }
@@ -366,8 +373,10 @@ func (c *conn) rerunSubscriptionsImmediately() {
 }
 
 func (c *conn) closeSubscription(id string) {
+	vh("close.enter", id)
 	c.mu.Lock()
 	defer c.mu.Unlock()
+	vh("close.locked", id, c.subscriptions[id] != nil)
 
 	if runner, ok := c.subscriptions[id]; ok {
 		runner.Stop()
@@ -379,6 +388,7 @@ func (c *conn) closeSubscription(id string) {
 func (c *conn) closeSubscriptions() {
 	c.mu.Lock()
 	defer c.mu.Unlock()
+	vh("closeAll.locked", len(c.subscriptions))
 
 	for id, runner := range c.subscriptions {
 		runner.Stop()
